@@ -9,3 +9,4 @@ import UgoVerif.Props.C11
 import UgoVerif.Props.C09
 import UgoVerif.Props.C12
 import UgoVerif.Props.C14
+import UgoVerif.Props.C05
